@@ -17,12 +17,13 @@ def _self(item):
     ok, msg = selfcheck(p, sizes, seed)
     rep = None
     exact = None
-    if selfcheck.last_model is not None:
+    if True:
+        # (programs the interpreter cannot encode are still replayed, on default inputs)
         # end-to-end round trip on the inputs z3 chose: gfortran(text) and gfortran(fgen(parse(text))) are the same
         # computation, so their outputs must be identical to the last digit (a lost kind / changed literal shows here)
         try:
             q0 = Prog.from_source(p.sourcefile.to_fortran(), entry)
-            exact = replay_equiv(p, q0, sizes, selfcheck.last_model, rtol=0)
+            exact = replay_equiv(p, q0, sizes, selfcheck.last_model or {}, rtol=0)
         except Exception as ex:  # pylint: disable=broad-except
             exact = (True, f'regenerated program is rejected by the frontend: {type(ex).__name__}: {str(ex)[:120]}')
     if exact is not None and exact[0]:
